@@ -13,6 +13,7 @@
   implementation's results) and the byte-order lemmas of Proofs.LE, which hold for every size.
 -/
 import Proofs.CastBin
+import Proofs.LineBinary
 
 namespace Jl.C11
 open Jl Cast
@@ -131,5 +132,58 @@ example : castNamed genTables Ext.empty "ToBinary" (.int .i32 (-2)) = .ok (.byte
   rfl
 example : castTo genTables Ext.empty (.int .i16) (.bytes [0x00, 0x80]) = .ok (.int .i16 (-32768)) := by rfl
 example : castTo genTables Ext.empty (.int .i16) (.bytes [0x00, 0x80, 0x00]) = .err .cast := by rfl
+
+/-! ### On the emitted BYTES: binary columns of fixed-width raw types through one line (`Proofs/LineBinary`)
+
+  `jlLine ti to line` = importer `GetRow`, exporter `CreateRow`, `row.MarshalJSON` over the regenerated
+  tables.  `LineBinary.fixedWidth` is the width table the oracle uses; `LineBinary.reemitted ty bs` is `bs`
+  for every type but bool, where any non-zero byte is written back as 01 (`bool_payload_normalised`). -/
+
+open Jl.Template Jl.LineBinary Jl.JsonQuote in
+/-- One binary column of a fixed-width raw type on both sides: the line is accepted IF AND ONLY IF the
+    member is base64 of exactly the type's width — for every process zone and stdlib parameter. -/
+theorem binary_line_accepted_iff_width (ext : Ext) (k : Bytes) {ty : Ty} {w : Nat}
+    (hty : fixedWidth ty = some w) (line s : Bytes)
+    (hline : Json.unmarshal line = (.cons k (.str s) .nil, true)) :
+    (∃ b, jlLine ⟨genTables, ext⟩ (withCol [] k .binary ty) (withCol [] k .binary ty) line = .ok (b, none)) ↔
+      ∃ bs, Base64.decode s = some bs ∧ bs.length = w :=
+  binary_line_accepted_iff ext k hty line s hline
+
+open Jl.Template Jl.LineBinary Jl.JsonQuote in
+/-- …and then the member written is the CANONICAL base64 of the bytes accepted (of their normal form for
+    bool), whatever spelling the input used. -/
+theorem binary_line_reemits_accepted_bytes (ext : Ext) (k : Bytes) (hk : sanitize k = k) {ty : Ty} {w : Nat}
+    (hty : fixedWidth ty = some w) (line s bs : Bytes)
+    (hline : Json.unmarshal line = (.cons k (.str s) .nil, true))
+    (hd : Base64.decode s = some bs) (hl : bs.length = w) :
+    (∃ b, jlLine ⟨genTables, ext⟩ (withCol [] k .binary ty) (withCol [] k .binary ty) line = .ok (b, none)) ∧
+    ∀ b, jlLine ⟨genTables, ext⟩ (withCol [] k .binary ty) (withCol [] k .binary ty) line = .ok (b, none) →
+      ∃ body tree, b = body ++ [0x0A] ∧ Json.unmarshal body = (tree, true) ∧
+        LineSpec.lookupJV tree k = some (.str (Base64.encode (reemitted ty bs))) :=
+  binary_line ext k hk hty line s bs hline hd hl
+
+open Jl.Template Jl.LineBinary in
+/-- A payload of any other length is rejected — nothing is written — whatever the exporter's template. -/
+theorem binary_line_other_length_rejected (ext : Ext) (k : Bytes) {ty : Ty} {w : Nat}
+    (hty : fixedWidth ty = some w) (to : Tmpl) (line s bs : Bytes)
+    (hline : Json.unmarshal line = (.cons k (.str s) .nil, true))
+    (hd : Base64.decode s = some bs) (hl : bs.length ≠ w) :
+    jlLine ⟨genTables, ext⟩ (withCol [] k .binary ty) to line = .ok ([], some .unsupportedImport) :=
+  binary_line_wrong_length ext k hty to line s bs hline hd hl
+
+open Jl.Template Jl.LineBinary Jl.JsonQuote in
+/-- Templates with ANY number of columns declaring the same distinct names the escaper leaves alone: on an
+    accepted line the oracle the correspondence check applies to the implementation's output
+    (`c11LineViolation`, restated as `LineBinary.c11Violation`) finds nothing, given that every binary column
+    of a fixed-width type it looks at is declared so in both templates. -/
+theorem emitted_line_binary_oracle (ext : Ext) (ti to : Tmpl) (line b : Bytes)
+    (h : jlLine ⟨genTables, ext⟩ ti to line = .ok (b, none)) (hx : JsonPrint.FloatTextOK ext)
+    (hto : (OMap.keys to).Nodup) (hperm : (OMap.keys ti).Perm (OMap.keys to))
+    (hutf : ∀ k ∈ OMap.keys to, sanitize k = k)
+    (hin : ∀ k ∈ Order.inputKeys line, sanitize k = k) (cols : List LineSpec.Col)
+    (hcols : ∀ n ty w, LineSpec.Col.leaf n .binary ty ∈ cols → fixedWidth ty = some w →
+      ∃ raw₁ raw₂, (n, Val.cell raw₁ .binary ty) ∈ ti ∧ (n, Val.cell raw₂ .binary ty) ∈ to) :
+    c11Violation cols line (jlLine ⟨genTables, ext⟩ ti to line) = none :=
+  LineBinary.emitted_line_oracle ext ti to line b h hx hto hperm hutf hin cols hcols
 
 end Jl.C11
